@@ -27,6 +27,20 @@ use serde_json::{json, Value};
 
 pub const WORKERS: u64 = 16;
 
+/// `CLV_SEQUENTIAL=1`: no thread pool at all (used when the harness runs under
+/// Miri, which objects to the pool's internals, and for crash tracing).
+pub fn sequential() -> bool {
+    std::env::var("CLV_SEQUENTIAL").map(|v| v == "1").unwrap_or(false)
+}
+
+fn map_indices<R: Send>(n: u64, f: impl Fn(u64) -> R + Sync + Send) -> Vec<R> {
+    if sequential() {
+        (0..n).map(f).collect()
+    } else {
+        (0..n).into_par_iter().map(f).collect()
+    }
+}
+
 #[derive(Clone, Copy, PartialEq, Eq, Debug)]
 pub enum Tier {
     Quick,
@@ -502,9 +516,8 @@ pub fn run_enum_chunks<T, I>(
         None => {}
     }
     let stop = std::sync::atomic::AtomicUsize::new(usize::MAX);
-    let results: Vec<(usize, PartOut)> = (0..nchunks)
-        .into_par_iter()
-        .map(|c| {
+    let results: Vec<(usize, PartOut)> = map_indices(nchunks as u64, |c| {
+            let c = c as usize;
             let mut acc = Acc::new();
             let mut failure = None;
             for case in chunk(c) {
@@ -526,8 +539,7 @@ pub fn run_enum_chunks<T, I>(
                 }
             }
             (c, PartOut { acc, failure })
-        })
-        .collect();
+        });
     let mut acc = Acc::new();
     let mut failure = None;
     for (_, out) in results {
@@ -607,9 +619,7 @@ pub fn run_prop<T, S>(
     }
     let per_worker = cases.div_ceil(WORKERS).max(1);
     let name_fp = fp(&name);
-    let results: Vec<PartOut> = (0..WORKERS)
-        .into_par_iter()
-        .map(|w| {
+    let results: Vec<PartOut> = map_indices(WORKERS, |w| {
             let config = Config {
                 cases: per_worker as u32,
                 failure_persistence: None,
@@ -679,8 +689,7 @@ pub fn run_prop<T, S>(
                 }
             };
             PartOut { acc, failure }
-        })
-        .collect();
+        });
     let mut acc = Acc::new();
     let mut failure: Option<(Fail, Value)> = None;
     for out in results {
